@@ -236,6 +236,81 @@ impl Line {
 //@end
 }
 
+
+// ---- the call site: SyslineReader::find_datetime_in_line glues the slices back together before handing them to the regex
+pub type Bytes = Vec<u8>;
+pub type Count = u64;
+#[verifier::external_body]
+pub fn verif_count_inc(c: &mut Count) { unimplemented!() }
+pub proof fn lemma_cat_take(v: Seq<Box<&[u8]>>, k: int)
+    requires 0 <= k < v.len()
+    ensures cat(v.take(k + 1)) == cat(v.take(k)) + (*v[k])@, cat(v.take(k + 1)).len() <= cat(v).len()
+    decreases v.len() - k
+{
+    assert(v.take(k + 1).drop_last() =~= v.take(k));
+    assert(v.take(k + 1).last() == v[k]);
+    if k + 1 < v.len() { lemma_cat_take(v, k + 1); } else { assert(v.take(k + 1) =~= v); }
+}
+
+/// C12: the bytes the datetime regex is run on are the bytes [start, slice_end) of the line, whether they came as one, two or many slices
+#[verifier::exec_allows_no_decreases_clause]
+pub fn glue_slices(line: &Line, range_start: usize, slice_end: usize, get_boxptrs_singleptr: &mut Count, get_boxptrs_doubleptr: &mut Count, get_boxptrs_multiptr: &mut Count)
+    requires
+        line_ok(*line), range_start < slice_end, slice_end as int <= parts_bytes(line.lineparts@).len(),
+        (range_start as int) < bytes(line.lineparts@[0]).len(),
+{
+    let ghost want = parts_bytes(line.lineparts@).subrange(range_start as int, slice_end as int);
+    loop
+        invariant
+            line_ok(*line), range_start < slice_end, slice_end as int <= parts_bytes(line.lineparts@).len(),
+            (range_start as int) < bytes(line.lineparts@[0]).len(),
+            want == parts_bytes(line.lineparts@).subrange(range_start as int, slice_end as int),
+        ensures true
+    {
+//@cut slice path=src/readers/syslinereader.rs impl=SyslineReader fn=find_datetime_in_line anchor="let mut hack_slice: Bytes;" take=range end_anchor="match line.get_boxptrs(" label=GLUE
+//@replace "dtpd.range_regex.start as LineIndex" "range_start"
+//@replace "slice_end as LineIndex" "slice_end"
+//@replace "*get_boxptrs_singleptr += 1;" "verif_count_inc(get_boxptrs_singleptr);"
+//@replace "*get_boxptrs_doubleptr += 1;" "verif_count_inc(get_boxptrs_doubleptr);"
+//@replace "*get_boxptrs_multiptr += 1;" "verif_count_inc(get_boxptrs_multiptr);"
+//@desugar_for 1 it exit="assert(vec_box_slice@.take(vec_box_slice@.len() as int) =~= vec_box_slice@);"
+//@desugar_for 2 it2 exit="assert(v0.take(v0.len() as int) =~= v0);"
+//@before "hack_slice = Bytes::with_capacity(box_slice1.len() + box_slice2.len());"
+                    proof { assert(((*box_slice1)@ + (*box_slice2)@).len() == (*box_slice1)@.len() + (*box_slice2)@.len()); }
+//@loop 1
+                        invariant_except_break
+                            vstd::std_specs::iter::IteratorSpec::decrease(&it.iter) is Some,
+                        invariant
+                            it.snapshot@ == it__snap0, it.wf(), it.seq().len() == vec_box_slice@.len(),
+                            forall|i: int| 0 <= i < vec_box_slice@.len() ==> *it.seq()[i] == vec_box_slice@[i],
+                            0 <= it.index@ <= it.seq().len(),
+                            cap as int == cat(vec_box_slice@.take(it.index@ as int)).len(), cat(vec_box_slice@) == want, want.len() <= usize::MAX,
+                        ensures cap as int == cat(vec_box_slice@).len(),
+                        decreases vstd::std_specs::iter::IteratorSpec::decrease(&it.iter).unwrap_or(arbitrary()),
+//@before "let mut cap: usize = 0;"
+                    let ghost v0 = vec_box_slice@;
+                    proof { assert(v0.take(0) =~= Seq::<Box<&[u8]>>::empty()); assert(v0.take(v0.len() as int) =~= v0); }
+//@before "cap += box_.len();"
+                        proof { lemma_cat_take(vec_box_slice@, it__old.index@ as int); }
+//@loop 2
+                        invariant_except_break
+                            vstd::std_specs::iter::IteratorSpec::decrease(&it2.iter) is Some,
+                        invariant
+                            it2.snapshot@ == it2__snap0, it2.wf(), it2.seq().len() == v0.len(),
+                            forall|i: int| 0 <= i < v0.len() ==> it2.seq()[i] == v0[i],
+                            0 <= it2.index@ <= it2.seq().len(),
+                            hack_slice@ == cat(v0.take(it2.index@ as int)), cat(v0) == want,
+                        ensures hack_slice@ == cat(v0),
+                        decreases vstd::std_specs::iter::IteratorSpec::decrease(&it2.iter).unwrap_or(arbitrary()),
+//@before "hack_slice.extend_from_slice(*box_);" 1
+                        proof { lemma_cat_take(v0, it2__old.index@ as int); }
+//@end
+        // C12 (named obligation): what the regex sees
+        assert(slice_@ == want);
+        break;
+    }
+}
+
 /// vacuity guard: must NOT verify
 pub proof fn gbp__canary(l: Line)
     requires line_ok(l), l.lineparts@.len() == 3, parts_bytes(l.lineparts@).len() == 10
